@@ -178,3 +178,55 @@ def check_precedence(cfg, prios, order, kinds, arg_kind, stack_names, lazy=(), f
     got = observe(st, arg, tensors_of(kinds))
     want = spec(cfg, prios, kinds, ("name", arg) if arg is not None else None, tuple(stack_names), lazy, failing, imported)
     return got == want
+
+
+# ---------------------------------------------------------------------------------------------------
+# the API layer hands the caller's backend= argument and tensor arguments to the registry as given (the documented
+# precedence is decided in ONE place, the registry, whose rules the conditions above cover)
+
+_API_ARGS = [
+    (", ", [1, 2.5]),
+    (", ", [np.float64(1.0), True]),
+    ("a, ", [np.zeros(2), 3]),
+    ("a, a", [np.zeros(2), np.ones(2)]),
+    (", a", [2, np.ones(2)]),
+]
+_API_WITH = [None, "numpy.einsum", "numpy.numpylike", "numpy"]
+_API_KW = [None, "numpy", "numpy.einsum", "numpy.numpylike"]
+_API_OPS = ["add", "multiply", "id"]
+
+
+def api_forwards(i_args, i_with, i_kw, i_op):
+    import einx
+    import einx._src.frontend.backend as be
+
+    desc, args = _API_ARGS[i_args]
+    opname = _API_OPS[i_op]
+    if opname == "id":
+        desc = desc + " -> " + desc
+    seen = []
+    reg = be.registry
+    orig = reg.get
+
+    def spy(backend=None, tensors=None):
+        seen.append((backend, list(tensors) if tensors is not None else None))
+        return orig(backend, tensors)
+
+    reg.get = spy
+    try:
+        kw = {} if _API_KW[i_kw] is None else {"backend": _API_KW[i_kw]}
+        try:
+            if _API_WITH[i_with] is not None:
+                with einx.backend.get(_API_WITH[i_with]):
+                    getattr(einx, opname)(desc, *args, graph=True, **kw)
+            else:
+                getattr(einx, opname)(desc, *args, graph=True, **kw)
+        except Exception:  # noqa: BLE001 - unsupported combinations are rejected AFTER the lookup
+            pass
+    finally:
+        del reg.get
+    lookups = [s for s in seen if s[1] is not None and len(s[1]) == len(args)]
+    if not lookups:
+        return False
+    backend, tensors = lookups[-1]
+    return backend is _API_KW[i_kw] and all(t is a for t, a in zip(tensors, args))
